@@ -138,7 +138,8 @@ Obs(st, U) ==
     (* ... and with OMDs that differ by one pair: one more pair of an existing key appended,   *)
     (* the last pair dropped, the first pair's value changed                                   *)
     eq |-> [same_omd |-> TRUE, reordered_omd |-> (Len(ps) < 2 \/ Rev(ps) = ps),
-            plus_one_omd |-> FALSE, minus_one_omd |-> (ps = <<>>), diffval_omd |-> (ps = <<>>),
+            plus_one_omd |-> FALSE, plus_dup_last_omd |-> (ps = <<>>),        \* (the last pair once more)
+            minus_one_omd |-> (ps = <<>>), diffval_omd |-> (ps = <<>>),
             same_dict |-> TRUE, diffval_dict |-> (ps = <<>>), missing_key_dict |-> (ps = <<>>),
             renamed_key_dict |-> FALSE,      \* a mapping of the same size in which one key (each in turn) has another name
             extra_key_dict |-> FALSE, non_mapping |-> FALSE],
